@@ -78,7 +78,8 @@ Definition validate_bool (p : plain) : res val :=
 
 Definition validate_str (jis : bool) (p : plain) : res val :=
   match p with
-  | PStr cps => Ok (VText jis cps)
+  | PStr cps =>       (* text the item cannot carry is refused when the item is built (D69) *)
+    match text_encode jis cps with Ok _ => Ok (VText jis cps) | Err _ => Err EValue end
   | PBytes bs => do cps <- text_decode jis bs; Ok (VText jis cps)
   | _ => Err EValue
   end.
@@ -104,7 +105,7 @@ Fixpoint from_value (p : plain) : res val :=
                | x :: xs => do y <- from_value x; do ys <- go xs; Ok (y :: ys)
                end) l;
     Ok (VArr r)
-  | PStr cps => Ok (VText false cps)
+  | PStr cps => validate_str false (PStr cps)
   | PBytes bs => Ok (VBin bs)
   | PBool b => Ok (VBool [b])
   | PFloat b =>
